@@ -64,6 +64,17 @@ def run(ctx):
         "argument interpreter disables the check or is statically extension-free.")
     ctx.not_decided = "nothing of the statement beyond Python-level state outside the package (locale, environment)."
 
+    h1(ctx, R)
+    h2(ctx, R)
+    h3(ctx, R)
+
+    # ---- H4 ----------------------------------------------------------------------
+    ctx.rule("H4", "factory isolation: no call from factory.py can read the registry")
+    h4(ctx, R)
+
+
+def h1(ctx, R):
+    prog = ctx.program
     # ---- H1 ----------------------------------------------------------------------
     ctx.rule("H1", "process-shared mutable objects and their writers")
     objs = shared_objects(prog)
@@ -181,12 +192,6 @@ def run(ctx):
               % (len(objs), len(objs) - min(nwritable, len(objs))))
     ctx.extra["shared_objects"] = sorted(q for _, _, q, _ in objs)
 
-    h2(ctx, R)
-    h3(ctx, R)
-
-    # ---- H4 ----------------------------------------------------------------------
-    ctx.rule("H4", "factory isolation: no call from factory.py can read the registry")
-    h4(ctx, R)
 
 
 def h2(ctx, R):
@@ -315,6 +320,20 @@ def _refers_shared(f, base, nm, short):
 def h4(ctx, R):
     prog = ctx.program
     fmod = prog.module("factory")
+    # who-may-read the registry: the three gates and RequireCommand.complete_cb only
+    allowed = {R.lookup.qualname, R.check_next_arg.qualname, R.valid_value.qualname if R.valid_value else "", "RequireCommand.complete_cb"}
+    nread = 0
+    for f in prog.all_funcs():
+        for n_ in walk_no_nested(f.node):
+            if isinstance(n_, ast.Attribute) and n_.attr == "loaded_extensions" and isinstance(n_.ctx, ast.Load):
+                nread += 1
+                if f.qualname in allowed or f is R.reset:
+                    continue
+                ctx.violation("H4", f, "registry-read:%s" % f.qualname, "%s reads the process-global extension registry: its result depends on which "
+                              "script was parsed last, not on its own input" % f.qualname, node=n_,
+                              witness="from_parser_result(P1) called after another parse returns the other script's requires")
+    if nread:
+        ctx.holds("H4", "registry read at %d places, all in the gates / complete_cb" % nread)
     table = R.table()
     by_name = {e["name"]: e for e in table.values() if not e["abstract"]}
     lk, cna = R.lookup, R.check_next_arg
